@@ -6,7 +6,7 @@ from .. import inputs
 from . import geom
 
 SPEC = dict(
-    technique='Lean 4 proof (exp = Rodrigues/screw closed form in 3-D, rotation / se(2) closed form in 2-D, exp(log R) = R on the general branch; regenerated model) + float monitor of the singular bands',
+    technique='Lean 4 proof (exp = Rodrigues/screw closed form in 3-D, rotation / se(2) closed form in 2-D, exp(log R) = R on the acute and the obtuse branch of the SO(3) logarithm; regenerated model) + float monitor of the singular bands',
     lean_modules=['SmVerif.Props.C03', 'SmVerif.Props.Exp2'],
     groups=['Transforms3d', 'Transforms2d', 'TransformsNd', 'Vectors'],
     expected_untranslatable=('trinterp_T', 'trinterp_T_nostart'),
@@ -175,6 +175,20 @@ def _impl(tier, seed, search):
         # ---- 2-D ----------------------------------------------------------------------------
         th2 = th * float(g.choice([-1, 1])); t2 = v[:2] if tmag <= 1e3 else v[:2] / tmag
         S2 = np.r_[t2, th2]
+        # several planar twists in one object: SE2() / exp() value by value (rotational and translational ones mixed)
+        if i % 3 == 1:
+            Sm2 = [S2, np.r_[t2, 0.0], np.r_[t2[::-1], -th2 / 2]]
+            def multi2():
+                X2 = Twist2([x_.copy() for x_ in Sm2])
+                return [np.asarray(a_, float) for a_ in X2.SE2().data], [np.asarray(a_, float) for a_ in X2.exp().data]
+            ok, r = L.noraise('Twist2(multi).SE2', multi2, dict(S=Sm2), 'multi-valued Twist2.SE2() / exp()', sig='Twist2(multi):raises')
+            if ok:
+                for nm_, got_ in (('SE2', r[0]), ('exp', r[1])):
+                    L.check(f'Twist2(multi).{nm_}:len', len(got_) == 3, dict(S=Sm2), f'multi-valued Twist2.{nm_} does not give one pose per twist', sig='Twist2(multi)')
+                    if len(got_) == 3:
+                        for k_ in range(3):
+                            Mk = np.array([[0, -Sm2[k_][2], Sm2[k_][0]], [Sm2[k_][2], 0, Sm2[k_][1]], [0, 0, 0]]); refk = ref_exp(Mk)
+                            L.close(f'Twist2(multi).{nm_}', got_[k_], refk, TOL, max(1.0, geom.tmag(refk)), dict(S=Sm2, k=k_), what=f'value {k_} of multi-valued Twist2.{nm_}() is not the exponential of twist {k_}', sig='Twist2(multi)')
         # planar twist objects, also for twist vectors scaled to unit Euclidean length (|S| = 1 with a fractional rotational part)
         if i % 3 == 2:
             for Sx in (S2, S2 / max(np.linalg.norm(S2), 1e-300), np.r_[0.6, 0.0, 0.8] * float(g.choice([-1, 1]))):
